@@ -214,7 +214,7 @@ def run(ctx):
     real = connlib.Real()
     rng = ctx.rng
     n = ctx.scale(150, 2500)
-    cases, outputs = [], {}
+    cases, outputs, extra = [], {}, {}
     for i in range(n):
         cid = "v%d" % i
         lines, outs, recs, log = serverlib.gen_server_case(real, rng, cid, n_iter=rng.choice([40, 80, 120]), n_clients=rng.choice([2, 3, 4]),
@@ -222,6 +222,7 @@ def run(ctx):
                                                            collide=0.5, silent=0.05, leave=0.05)
         cases.append(lines)
         outputs[cid] = outs
+        extra[cid] = (recs, log)
 
     def nontrivial(case, outs):
         j = " ".join(outs)
@@ -232,6 +233,9 @@ def run(ctx):
     ctx.correspondence("Server(loop)", "Conn", cases, impl_fn, nontrivial, RULE, minimise=False, post=serverlib.post)
     for c in cases:
         lifecycle_monitor(c, outputs[core.case_id(c)], ctx)
+        if not ctx.failures:
+            # events keep flowing: nothing a handler does with one event (raise, send, disconnect) costs the client another event
+            serverlib.honest_monitor(c, extra[core.case_id(c)][0], extra[core.case_id(c)][1], ctx)
         if ctx.failures:
             return
     thread_smoke(connlib.Real(), ctx)
